@@ -1,6 +1,6 @@
 (* Properties/C16.v -- property theorems for C16; statements only.
    Each is closed by [exact lemma] and followed by Print Assumptions. *)
-From RV Require Import Base.Prelude Base.Cursor Name.NameModel Name.NameSpec Name.NameProofs.
+From RV Require Import Base.Prelude Base.Cursor Name.NameModel Name.NameSpec Name.NameProofs Name.NameWireCase.
 
 (* every constructor returns a well-formed name *)
 Theorem C16_from_labels_wf : forall ls n,
@@ -85,3 +85,25 @@ Theorem C16_zones_get_longest_suffix : forall (Z : Type) (zs : list (dname * Z))
                   (length (labels k') <= length (labels k))%nat.
 Proof. exact zones_get_longest_suffix. Qed.
 Print Assumptions C16_zones_get_longest_suffix.
+
+(* case-insensitivity on the wire: byte strings that differ only in the ASCII case of the
+   label octets of the name read at [pos] -- same length octets, same pointers, label octets
+   equal after case folding, through every pointer followed ([name_case_variant], which
+   follows the name grammar of RFC 1035 4.1.4) -- decode to the same result: the same name
+   and next offset, or the same error.  (Lower-casing EVERY octet would not do: length
+   octets 65..90 would change.) *)
+Theorem C16_wire_case_insensitive : forall bs bs' pos,
+  name_case_variant bs bs' pos -> decode_name_at bs pos = decode_name_at bs' pos.
+Proof. exact wire_case_insensitive. Qed.
+Print Assumptions C16_wire_case_insensitive.
+
+(* the hypothesis is satisfiable by strings that really differ: at offset 13, "A" then a
+   pointer to "WwW.eXamPlE" at offset 0, against "a" then a pointer to "wWw.ExAMpLe" *)
+Example C16_wire_case_insensitive_ex :
+  name_case_variant nwc_ex nwc_ex' 13 /\ nwc_ex <> nwc_ex' /\
+  decode_name_at nwc_ex 13
+  = Ok ({| labels := [[97]; [119;119;119]; [101;120;97;109;112;108;101]; []]; nlen := 15 |}, 17) /\
+  decode_name_at nwc_ex' 13 = decode_name_at nwc_ex 13.
+Proof.
+  split; [exact nwc_ex_variant|]. split; [discriminate|]. split; vm_compute; reflexivity.
+Qed.
